@@ -199,6 +199,17 @@ def run(chk, prog):
     check_count_pairing(chk, prog, tr, RC)
 
 
+def entry_async_flow(prog, tr, ci):
+    """GuardFlow over continue_internal tracking Story::async_continue_active (atom 'async', entry value 'entry:async')."""
+    def atom_of(desc):
+        if desc == ('field', 'Story::async_continue_active'):
+            return 'async'
+        return None
+    gf = GuardFlow(prog, ci, atom_of, tracer=tr)
+    gf.run()
+    return gf
+
+
 def named_source(fn, l, depth=0):
     """Follow `tmp = copy x` chains back to a user-named local."""
     from analysis.defuse import du
